@@ -70,6 +70,9 @@ var scenarios = []struct {
 	name string
 	src  string
 }{
+	{"xpcall_handler_after_stack_overflow", `local function rec(n) return rec(n + 1) + 1 end
+local ok, e = xpcall(function() return rec(1) end, function(m) for i = 1, 40 do emit("so", i) end return "H" end)
+emit("done", ok)`},
 	{"inner_coroutine_outlives_creator", `local inner
 local outer = coroutine.create(function()
   inner = coroutine.create(function(a) emit("in1", a) local b = coroutine.yield(a + 1) emit("in2", b) local c = coroutine.yield(b + 1) emit("in3", c) return "done" end)
